@@ -242,10 +242,20 @@ CaseOfLibTop(c) ==
                [label |-> "libtop/debug", tp |-> Sources(LibTopTp(c), LMin), xcalls |-> [id \in {} |-> 0], debug |-> TRUE]},
      expect |-> [ok |-> TRUE, anyoutcome |-> TRUE, out |-> <<>>, noout |-> TRUE, err |-> "", calls |-> [id \in {} |-> 0], always |-> [id \in {"f1"} |-> 0]]]
 
-Init == cs \in LibTopCases \cup WidgetCases \cup {c \in Cases \cup PreCases \cup ForeignCases \cup DenyCases \cup EscCases : Valid(c) /\ Ref(c).err # "frag"
+\* the engine's policy is the one the library provides (NewDefaultSecurityPolicy); other engines of the process took the same and
+\* opened theirs up, in place, for exactly the forbidden names: this engine's policy is its own
+DefPolCases == {[defpol |-> TRUE, pos |-> pos, kind |-> kind, route |-> route, pol |-> "forbid", r2 |-> "none"]
+                  : pos \in {"print", "forseq", "chainupper", "set", "ifcond", "apply"}, kind \in {"fn", "filter"}, route \in {"direct", "include", "extendsblock", "localmacro"}}
+CaseOfDefPol(c) ==
+    [prop |-> "C06", key |-> ToJson(c), tags |-> {"pol:default", "pos:" \o c.pos, "kind:" \o c.kind, "route:" \o c.route},
+     entry |-> "main", ctx |-> EmptyFn, cfg |-> [sandbox |-> TRUE, allowf |-> {}, allowfn |-> {}],
+     runs |-> {[label |-> "defaultpolicy", tp |-> Sources(Tp(c), LMin), xcalls |-> [id \in {} |-> 0], defaultpolicy |-> TRUE, foreign |-> <<"sfx", "spx", "sfz", "sf", "sp">>]},
+     expect |-> [ok |-> FALSE, out |-> <<>>, err |-> "any", calls |-> [id \in {} |-> 0], always |-> [id \in {"f1"} |-> 0]]]
+
+Init == cs \in {c \in DefPolCases : Valid(c)} \cup LibTopCases \cup WidgetCases \cup {c \in Cases \cup PreCases \cup ForeignCases \cup DenyCases \cup EscCases : Valid(c) /\ Ref(c).err # "frag"
                                   /\ Render(MkW(Tp(c), AllowF(IF c.pol = "allow" THEN "forbid" ELSE "allow"), AllowFn(IF c.pol = "allow" THEN "forbid" ELSE "allow"), NoFault), "main", EmptyFn).err # "frag"}
 Next == UNCHANGED cs
 Spec == Init /\ [][Next]_cs
-Emit == PrintT(ToJson(IF "deny" \in DOMAIN cs THEN CaseOfDeny(cs) ELSE IF "widget" \in DOMAIN cs THEN CaseOfWidget(cs) ELSE IF "libtop" \in DOMAIN cs THEN CaseOfLibTop(cs) ELSE CaseOf(cs)))
-ModelOK == "widget" \in DOMAIN cs \/ "libtop" \in DOMAIN cs \/ Confined(cs)
+Emit == PrintT(ToJson(IF "deny" \in DOMAIN cs THEN CaseOfDeny(cs) ELSE IF "widget" \in DOMAIN cs THEN CaseOfWidget(cs) ELSE IF "libtop" \in DOMAIN cs THEN CaseOfLibTop(cs) ELSE IF "defpol" \in DOMAIN cs THEN CaseOfDefPol(cs) ELSE CaseOf(cs)))
+ModelOK == "widget" \in DOMAIN cs \/ "libtop" \in DOMAIN cs \/ "defpol" \in DOMAIN cs \/ Confined(cs)
 =============================================================================
